@@ -52,3 +52,18 @@ PROPS["C09"] = {
              "distinct = distinct YAML documents; non-trivial = at least two content entries or two scripts"),
     "trusted_base": PKG_TB, "assumptions": [],
 }
+
+PROPS["C03"] = {
+    "level": "proof", "harness": "C03", "driver": "C03",
+    "rule": ("cases = payload shapes at the edges (empty payload, total size 0 from symlinks/directories/empty files, files of 300 KiB and 2.25 MiB under every deb and rpm compression setting, "
+             "trees, directories with their own mtime) plus generated configurations, x 5 formats from one parsed config; every stored digest and size is recomputed from the decoded bytes; "
+             "distinct = distinct YAML documents; non-trivial = at least two content entries"),
+    "trusted_base": PKG_TB + ["hash functions: Go crypto/md5, sha1, sha256 applied by the harness to decoded bytes"], "assumptions": [],
+}
+PROPS["C04"] = {
+    "level": "proof", "harness": "C04", "driver": "C04",
+    "rule": ("cases = names at the edges (dot-prefixed first components beside undotted siblings, names sorting before .PKGINFO, 10-level nesting), control members whose size is 511/512/513/1024/4096 bytes, "
+             "plus generated configurations with every compression setting, x 5 formats; each package is read end to end by the independent decoders; "
+             "distinct = distinct YAML documents; non-trivial = at least two content entries"),
+    "trusted_base": PKG_TB, "assumptions": [],
+}
